@@ -10,9 +10,9 @@ def _env(scratch, ctx):
     os.makedirs(xout, exist_ok=True)
     return {"RUSTFLAGS": "--cfg asefile_verif", "CARGO_TARGET_DIR": os.path.join(scratch.root, "target-native"),
             # optimised but with overflow checks and debug assertions (the test profile keeps both on)
-            "CARGO_PROFILE_TEST_OPT_LEVEL": "2", "CARGO_PROFILE_DEV_OPT_LEVEL": "2",
+            "CARGO_PROFILE_TEST_OPT_LEVEL": os.environ.get("VERIF_X_OPT", "2"), "CARGO_PROFILE_DEV_OPT_LEVEL": "2",
             "CARGO_PROFILE_TEST_DEBUG": "0", "CARGO_PROFILE_DEV_DEBUG": "0",
-            "VERIF_TIER": ctx["tier"], "VERIF_SEED": str(ctx["seed"]), "VERIF_XOUT": xout, "RUST_BACKTRACE": "0",
+            "VERIF_TIER": ctx["tier"], "VERIF_SEED": str(ctx["seed"]), "VERIF_XOUT": xout, "VERIF_XTMP": scratch.root, "RUST_BACKTRACE": "0",
             "RUST_MIN_STACK": str(8 * 1024 * 1024)}
 
 
